@@ -5,7 +5,10 @@
 # and evidence/replay files go to a scratch VERIF_ROOT. Everything is removed afterwards.
 set -u
 P="$(readlink -f "$1")"; ID="$2"; TIER="${3:-quick}"
-W=$(mktemp -d /tmp/mut.XXXXXX)
+# one scratch directory per calling process: the same path for every change a batch job tries,
+# so that Go's build cache keeps the packages the change does not touch
+W=/tmp/mut.$PPID
+rm -rf "$W"; mkdir -p "$W"
 trap 'rm -rf "$W"' EXIT
 mkdir -p "$W/repo" "$W/root/bin"
 rsync -a --exclude .git /repo/ "$W/repo/"
